@@ -1078,6 +1078,18 @@ def hk_prefix_clean(t, prog):
     return all(e[0] in ("poll", "tick", "hand", "huse") for e in pre)
 
 
+def load_findings(ctx):
+    """the merged list (known_findings.json) plus this work package's own file until it is merged"""
+    import json
+    items = {f["id"]: f for f in ctx.findings}
+    own = C.VERIF / "known_findings.d" / "C05.json"
+    if own.exists():
+        for e in json.loads(own.read_text()):
+            if e.get("property") == "C05":
+                items.setdefault(e["id"], e)
+    return list(items.values())
+
+
 CLASSES = ["plain", "devices", "vars", "nested", "mix", "mix", "nomain", "postloop", "twoloops", "looplocal_top",
            "looplocal_if", "looplocal_for", "setup_inner", "break_nested", "break_main", "break_main_if", "break_top",
            "break_setup_for", "devices", "mix"]
@@ -1119,11 +1131,21 @@ def run(ctx: C.Ctx):
             prefix_checked += 1
 
     # ---- known findings: replay the listed witnesses on the real code
-    for f in ctx.findings:
+    for f in load_findings(ctx):
         if f.get("kind") == "fixed":
             continue
         w = f["witness"]
-        prog = {"src": w["src"], "items": w["items"], "marks": {int(k): v for k, v in w["marks"].items()},
+        marks = {int(k): v for k, v in w.get("marks", {}).items()}
+        if w.get("lexical"):
+            # decided on the real parse() result (never on wall-clock time): the main loop's body is not in loop_body
+            r = C.run_impl("c05_impl.py", {"sources": [w["src"]], "timeout": 20, "emit": False}, timeout=80)[0]
+            body_marks = sorted(i for i, fm in marks.items() if f'"m{i}"' in w["src"].split("while True", 1)[1])
+            if r["ok"]:
+                in_loop = [n for n in canon_real_ir(r["loop"], {"devs": {}, "marks": marks}) if n[0] == "m"]
+                if [n[1] for n in in_loop] != body_marks:
+                    ctx.known(f"{f['id']}: {f['what']}")
+            continue
+        prog = {"src": w["src"], "items": w["items"], "marks": marks,
                 "inputs": {}, "lcd_user_row": {}, "lcd_anim_rows": {}, "lcd_order": [], "devs": {"mon": ("Serial", [], "setup")},
                 "cls": "witness", "sentinels": w.get("sentinels", []), "starts": []}
         probe_stats = {k: (0 if not isinstance(v, dict) else {}) for k, v in stats.items()}
